@@ -68,6 +68,8 @@ Lemma ntp_StA c t : next_token_p (StA c t) = POk t (St c).
 Proof. apply ntp_of. reflexivity. Qed.
 Lemma ntp_St c t c' : lex_token c = Ok (t, c') -> next_token_p (St c) = POk t (St c').
 Proof. intros H. apply ntp_of. apply la_St. exact H. Qed.
+Lemma nti_StA c t : tkind t = KIdent -> next_type_identifier (StA c t) = POk (tstr t) (St c).
+Proof. apply nti_of. reflexivity. Qed.
 Lemma lak_StA c t : look_ahead_kind (StA c t) = POk (tkind t) (StA c t).
 Proof. apply lak_of. reflexivity. Qed.
 Lemma lak_St c t c' : lex_token c = Ok (t, c') -> look_ahead_kind (St c) = POk (tkind t) (StA c' t).
@@ -171,4 +173,620 @@ Proof.
   unfold type_name_ok. intros H Hs. apply orb_true_iff in H as [H|H].
   - exists KIdent. split; [apply lex_plain_name; assumption | left; reflexivity].
   - apply beq_bytes_eq in H. subst n. exists KVararg. split; [apply lex_dots | right; split; reflexivity].
+Qed.
+
+(* ------------------------------------------------------------------ small computations *)
+Ltac kcomp :=
+  repeat match goal with
+         | |- context [kind_eqb ?a ?b] =>
+           let v := eval vm_compute in (kind_eqb a b) in
+           match v with true => idtac | false => idtac end; change (kind_eqb a b) with v
+         end; cbv iota.
+
+Lemma kind_neq_false k k' : k <> k' -> kind_eqb k k' = false.
+Proof. apply kind_eqb_neq. Qed.
+
+Lemma lex_kw_table rest : stop rest = true -> lex_token (t_table ++ rest) = Ok (mkTok KTable t_table, rest).
+Proof. intros H. apply (lex_word 116%N [97; 98; 108; 101]%N rest); [reflexivity|reflexivity|exact H]. Qed.
+
+Lemma lex_kw_fun c : lex_token (t_fun ++ c) = Ok (mkTok KFun [102; 117; 110]%N, 40%N :: c).
+Proof. apply (lex_word 102%N [117; 110]%N (40%N :: c)); reflexivity. Qed.
+
+Lemma no_quote_hd s : no_quote s = true -> (hd 0%N s =? 39)%N = false /\ (hd 0%N s =? 34)%N = false.
+Proof.
+  destruct s as [|b s]; cbn; [split; reflexivity|]. intros H. apply andb_true_iff in H as [H _]. lia.
+Qed.
+
+Lemma ssq_plain s : no_quote s = true -> split_str_quotes s = Ok (s, false).
+Proof.
+  intros H. unfold split_str_quotes. destruct (Nat.leb (length s) 2); [reflexivity|].
+  destruct (no_quote_hd s H) as [-> ->]. reflexivity.
+Qed.
+
+Lemma ssq_quoted s : s <> [] -> split_str_quotes (34%N :: s ++ [34%N]) = Ok (s, true).
+Proof.
+  intros Hs. unfold split_str_quotes.
+  assert (Hlen : length (34%N :: s ++ [34%N]) = length s + 2)
+    by (cbn [length]; rewrite app_length; cbn [length]; lia).
+  assert (Hpos : 1 <= length s) by (destruct s; [contradiction|cbn [length]; lia]).
+  replace (Nat.leb (length (34%N :: s ++ [34%N])) 2) with false by (symmetry; apply Nat.leb_gt; lia).
+  replace (last (34%N :: s ++ [34%N]) 0%N) with 34%N
+    by (change (34%N :: s ++ [34%N]) with ((34%N :: s) ++ [34%N]); rewrite last_last; reflexivity).
+  cbn [hd]. cbn [N.eqb Pos.eqb andb orb].
+  rewrite go_slice_ok by lia. cbn [rbind skipn]. f_equal. f_equal.
+  replace (length (34%N :: s ++ [34%N]) - 1 - 1) with (length s) by lia.
+  rewrite firstn_app, Nat.sub_diag, firstn_all. cbn [firstn]. apply app_nil_r.
+Qed.
+
+Lemma no_quote_no d s : (d = 39 \/ d = 34)%N -> no_quote s = true -> forallb (fun c => negb (d =? c)%N) s = true.
+Proof.
+  intros Hd H. induction s as [|b s IH]; [reflexivity|]. cbn in *. apply andb_true_iff in H as [H1 H2].
+  rewrite IH by assumption. destruct Hd; subst; lia.
+Qed.
+
+(* ------------------------------------------------------------------ the claims *)
+Notation shw := (show_bare true).
+
+Definition cond_prim (t : dtype) (k : akind) : Prop :=
+  k <> KLt /\ (is_fun t = true -> k <> KColon /\ k <> KComma /\ k <> KBor /\ k <> KLbrack).
+
+(* the primary part of parserSingleType on the bare text of a type that is neither a union nor an array *)
+Definition ClaimA (t : dtype) : Prop :=
+  forall f l rest tk rest',
+    is_union t = false -> is_array t = false ->
+    At (shw t ++ rest) l -> Fol rest tk rest' -> cond_prim t (tkind tk) ->
+    2 * length (shw t) + 12 <= f ->
+    exists l', primary f l = POk (embed_bare t) l' /\ look_ahead l' = Ok (StA rest' tk).
+
+(* parserSingleType on the bare text of a type that is not a union *)
+Definition ClaimB (t : dtype) : Prop :=
+  forall f l rest tk rest',
+    is_union t = false ->
+    At (shw t ++ rest) l -> Fol rest tk rest' -> cond_prim t (tkind tk) -> tkind tk <> KLbrack ->
+    2 * length (shw t) + 14 <= f ->
+    exists l', parse_single_type f l = POk (embed_bare t) l' /\ look_ahead l' = Ok (StA rest' tk).
+
+(* parserOneType on the bare text of any type *)
+Definition ClaimC (t : dtype) : Prop :=
+  forall f l rest tk rest',
+    At (shw t ++ rest) l -> Fol rest tk rest' -> cond_prim t (tkind tk) ->
+    tkind tk <> KLbrack -> tkind tk <> KBor ->
+    2 * length (shw t) + 18 <= f ->
+    parse_one_type f l = POk (embed_one t) (StA rest' tk).
+
+(* ---- leaves *)
+Lemma claimA_name n : doc_type (DName n) = true -> ClaimA (DName n).
+Proof.
+  intros Hd f l rest tk rest' _ _ Hat [Hlex Hstop] _ Hf. cbn [doc_type] in Hd. cbn [show_bare] in Hat.
+  destruct (lex_type_name n rest Hd Hstop) as (k & Hk & Hcase).
+  pose proof (At_la _ _ _ _ Hat Hk) as Hl.
+  exists (St rest). split; [|apply la_St; exact Hlex].
+  unfold primary. rewrite (lak_of _ _ _ Hl). cbn [pbind tkind].
+  destruct Hcase as [->|[-> ->]]; kcomp.
+  - rewrite nti_StA by reflexivity. reflexivity.
+  - rewrite ntp_StA. reflexivity.
+Qed.
+
+Lemma claimA_const s q : doc_type (DConst s q) = true -> ClaimA (DConst s q).
+Proof.
+  intros Hd f l rest tk rest' _ _ Hat [Hlex Hstop] _ Hf. cbn [doc_type] in Hd.
+  apply andb_true_iff in Hd as [Hnq Hq]. cbn [show_bare] in Hat. unfold show_const in Hat.
+  exists (St rest). split; [|apply la_St; exact Hlex].
+  unfold primary. destruct q.
+  - assert (Hs : s <> []) by (destruct s; [discriminate Hq|discriminate]).
+    assert (Hk : lex_token (([39; 34]%N ++ s ++ [34; 39]%N) ++ rest) = Ok (mkTok KString (34%N :: s ++ [34%N]), rest)).
+    { replace (([39; 34]%N ++ s ++ [34; 39]%N) ++ rest) with (39%N :: (34%N :: s ++ [34%N]) ++ 39%N :: rest)
+        by (cbn [app]; rewrite <- !app_assoc; reflexivity).
+      apply lex_string; [reflexivity|]. cbn [forallb app]. rewrite forallb_app. cbn [forallb].
+      rewrite (no_quote_no 39%N s (or_introl eq_refl) Hnq). reflexivity. }
+    pose proof (At_la _ _ _ _ Hat Hk) as Hl.
+    rewrite (lak_of _ _ _ Hl). cbn [pbind tkind]. kcomp.
+    unfold ahead_str. cbn [ahead tstr]. rewrite (ssq_quoted s Hs). cbn [lift_res pbind fst snd].
+    rewrite ntp_StA. reflexivity.
+  - assert (Hk : lex_token (([34%N] ++ s ++ [34%N]) ++ rest) = Ok (mkTok KString s, rest)).
+    { replace (([34%N] ++ s ++ [34%N]) ++ rest) with (34%N :: s ++ 34%N :: rest)
+        by (cbn [app]; rewrite <- !app_assoc; reflexivity).
+      apply lex_string; [reflexivity|]. apply no_quote_no; [right; reflexivity | exact Hnq]. }
+    pose proof (At_la _ _ _ _ Hat Hk) as Hl.
+    rewrite (lak_of _ _ _ Hl). cbn [pbind tkind]. kcomp.
+    unfold ahead_str. cbn [ahead tstr]. rewrite (ssq_plain s Hnq). cbn [lift_res pbind fst snd].
+    rewrite ntp_StA. reflexivity.
+Qed.
+
+Lemma claimA_table0 : ClaimA DTable0.
+Proof.
+  intros f l rest tk rest' _ _ Hat [Hlex Hstop] [Hlt _] Hf. cbn [show_bare] in Hat.
+  pose proof (At_la _ _ _ _ Hat (lex_kw_table rest Hstop)) as Hl.
+  exists (StA rest' tk). split; [|reflexivity].
+  unfold primary. rewrite (lak_of _ _ _ Hl). cbn [pbind tkind]. kcomp.
+  destruct f as [|f]; [cbn in Hf; lia|]. cbn [parse_table_type].
+  rewrite nok_StA by reflexivity. cbn [pbind].
+  rewrite (lak_St _ _ _ Hlex). cbn [pbind]. rewrite (kind_neq_false _ _ Hlt). reflexivity.
+Qed.
+
+(* ---- from the primary part to parserSingleType (types that are not arrays) *)
+Lemma claimB_of_A t : is_array t = false -> ClaimA t -> ClaimB t.
+Proof.
+  intros Har HA f l rest tk rest' Hu Hat Hfol Hc Hk Hf.
+  destruct f as [|f]; [lia|]. rewrite single_unfold.
+  destruct (HA f l rest tk rest' Hu Har Hat Hfol Hc ltac:(lia)) as (l' & -> & Hl'). cbn [pbind].
+  exists (StA rest' tk). split; [|reflexivity]. apply suffix_plain; assumption.
+Qed.
+
+(* ---- a parenthesised type *)
+Lemma paren_primary t : ClaimC t ->
+  forall f l rest, At (40%N :: shw t ++ 41%N :: rest) l -> 2 * length (shw t) + 18 <= f ->
+                   primary f l = POk (embed_one t) (St rest).
+Proof.
+  intros HC f l rest Hat Hf.
+  pose proof (At_la _ _ _ _ Hat (lex_lparen _)) as Hl.
+  unfold primary. rewrite (lak_of _ _ _ Hl). cbn [pbind tkind]. kcomp.
+  rewrite nok_StA by reflexivity. cbn [pbind].
+  rewrite (HC f (St (shw t ++ 41%N :: rest)) (41%N :: rest) (mkTok KRparen [41%N]) rest);
+    [| apply At_St | split; [apply lex_rparen | reflexivity] | split; [discriminate | intros _; repeat split; discriminate]
+     | discriminate | discriminate | exact Hf].
+  cbn [pbind]. rewrite nok_StA by reflexivity. reflexivity.
+Qed.
+
+(* ------------------------------------------------------------------ parserOneType from parserSingleType *)
+Lemma lap_At text l : At text l -> exists l1, look_ahead_p l = POk tt l1 /\ At text l1.
+Proof.
+  intros Hat. destruct (look_ahead_ok l) as (l1 & Hl & _ & t & Ht).
+  exists l1. split; [unfold look_ahead_p; rewrite Hl; reflexivity|].
+  unfold At in *. rewrite <- Hat, Hl. unfold look_ahead. rewrite Ht. reflexivity.
+Qed.
+
+Lemma one_from_single text l f a rest' tk :
+  At text l ->
+  (forall l1, At text l1 -> exists l', parse_single_type f l1 = POk a l' /\ look_ahead l' = Ok (StA rest' tk)) ->
+  tkind tk <> KBor ->
+  parse_one_type (S (S f)) l = POk (AMulti [a]) (StA rest' tk).
+Proof.
+  intros Hat Hs Hk. cbn [parse_one_type]. destruct (lap_At _ _ Hat) as (l1 & -> & Hat1). cbn [pbind].
+  cbn [one_type_loop]. destruct (Hs l1 Hat1) as (l' & -> & Hl'). cbn [pbind app].
+  rewrite (lak_of _ _ _ Hl'). cbn [pbind]. rewrite (kind_neq_false _ _ Hk). reflexivity.
+Qed.
+
+Lemma claimC_of_B t : is_union t = false -> ClaimB t -> ClaimC t.
+Proof.
+  intros Hu HB f l rest tk rest' Hat Hfol Hc Hk1 Hk2 Hf.
+  destruct f as [|[|f]]; [lia|lia|].
+  unfold embed_one, wrap_one. rewrite Hu.
+  eapply one_from_single; [exact Hat| |exact Hk2].
+  intros l1 Hat1. apply (HB f l1 rest tk rest' Hu Hat1 Hfol Hc Hk1). lia.
+Qed.
+
+(* a "one type" position printed by show_sub (a fun type is parenthesised) *)
+Definition ok_follow (k : akind) : Prop := k <> KLbrack /\ k <> KBor /\ k <> KLt.
+
+Lemma paren_length b s : length (paren b s) = length s + (if b then 2 else 0).
+Proof. destruct b; cbn [paren]; [rewrite app_length; cbn [length]; rewrite app_length; cbn [length]; lia | lia]. Qed.
+
+Lemma sub_one t : ClaimC t ->
+  forall f l rest tk rest',
+    At (show_sub true t ++ rest) l -> Fol rest tk rest' -> ok_follow (tkind tk) ->
+    2 * length (show_sub true t) + 18 <= f ->
+    parse_one_type f l = POk (embed_sub t) (StA rest' tk).
+Proof.
+  intros HC f l rest tk rest' Hat Hfol (K1 & K2 & K3) Hf.
+  unfold show_sub, embed_sub, wrap_sub, sub_paren in *. rewrite paren_length in Hf.
+  destruct (is_fun t) eqn:Hfun; cbn [paren] in *.
+  - destruct f as [|[|[|f]]]; try lia.
+    eapply one_from_single; [exact Hat| |exact K2].
+    intros l1 Hat1. rewrite single_unfold.
+    cbn [app] in Hat1. rewrite <- app_assoc in Hat1. cbn [app] in Hat1.
+    rewrite (paren_primary t HC f l1 rest Hat1) by lia. cbn [pbind].
+    destruct Hfol as [Hlex Hstop].
+    exists (StA rest' tk). split; [|reflexivity]. apply suffix_plain; [apply la_St; exact Hlex | exact K1].
+  - apply (HC f l rest tk rest' Hat Hfol); [split; [exact K3 | rewrite Hfun; discriminate] | exact K1 | exact K2 | lia].
+Qed.
+
+(* ------------------------------------------------------------------ arrays *)
+Lemma fol_brackets rest : Fol (t_brackets ++ rest) (mkTok KLbrack [91%N]) (93%N :: rest).
+Proof. split; reflexivity. Qed.
+
+Lemma claimB_array i : ClaimA i -> ClaimC i -> ClaimB (DArray i).
+Proof.
+  intros HA HC f l rest tk rest' _ Hat [Hlex Hstop] _ Hk Hf.
+  cbn [show_bare] in Hat, Hf. rewrite app_length, paren_length in Hf. cbn [length t_brackets] in Hf.
+  rewrite <- app_assoc in Hat.
+  destruct f as [|f]; [lia|]. rewrite single_unfold.
+  exists (St rest). split; [|apply la_St; exact Hlex].
+  cbn [embed_bare]. unfold wrap_item. unfold item_paren in *. cbn [andb] in *.
+  destruct (is_union i || is_fun i || is_array i) eqn:Hp; cbn [paren] in *.
+  - cbn [app] in Hat. rewrite <- app_assoc in Hat. cbn [app] in Hat.
+    rewrite (paren_primary i HC f l (t_brackets ++ rest) Hat) by lia. cbn [pbind].
+    apply suffix_array. apply At_St.
+  - apply orb_false_iff in Hp as [Hp Har]. apply orb_false_iff in Hp as [Hu Hfu].
+    destruct (HA f l (t_brackets ++ rest) _ _ Hu Har Hat (fol_brackets rest)) as (l' & -> & Hl').
+    { split; [discriminate | rewrite Hfu; discriminate]. }
+    { lia. }
+    cbn [pbind]. apply suffix_array. eapply la_At; [exact Hl' | reflexivity].
+Qed.
+
+(* ------------------------------------------------------------------ unions *)
+Lemma join_cons2 sep x y r : join sep (x :: y :: r) = x ++ sep ++ join sep (y :: r).
+Proof. reflexivity. Qed.
+Lemma join_one sep x : join sep [x] = x.
+Proof. reflexivity. Qed.
+
+Definition mtext (m : dtype) : bytes := paren (member_paren m) (shw m).
+Definition membed (m : dtype) : atype := wrap_member m (embed_bare m).
+
+(* parserSingleType on a union member *)
+Definition ClaimM (m : dtype) : Prop :=
+  forall f l rest tk rest',
+    At (mtext m ++ rest) l -> Fol rest tk rest' -> tkind tk <> KLbrack -> tkind tk <> KLt ->
+    2 * length (mtext m) + 16 <= f ->
+    exists l', parse_single_type f l = POk (membed m) l' /\ look_ahead l' = Ok (StA rest' tk).
+
+Lemma claimM_of m : ClaimB m -> ClaimC m -> ClaimM m.
+Proof.
+  intros HB HC f l rest tk rest' Hat Hfol K1 K3 Hf.
+  unfold mtext, membed, wrap_member in *. rewrite paren_length in Hf.
+  destruct (member_paren m) eqn:Hp; cbn [paren] in *.
+  - destruct f as [|f]; [lia|]. rewrite single_unfold.
+    cbn [app] in Hat. rewrite <- app_assoc in Hat. cbn [app] in Hat.
+    rewrite (paren_primary m HC f l rest Hat) by lia. cbn [pbind].
+    destruct Hfol as [Hlex Hstop].
+    exists (StA rest' tk). split; [|reflexivity]. apply suffix_plain; [apply la_St; exact Hlex | exact K1].
+  - unfold member_paren in Hp. apply orb_false_iff in Hp as [Hu Hfu].
+    apply (HB f l rest tk rest' Hu Hat Hfol); [split; [exact K3 | rewrite Hfu; discriminate] | exact K1 | lia].
+Qed.
+
+Lemma fol_bar more : Fol (t_bar ++ more) (mkTok KBor [124%N]) (32%N :: more).
+Proof. split; reflexivity. Qed.
+
+Lemma union_loop ts : ts <> [] -> Forall ClaimM ts ->
+  forall f acc l rest tk rest',
+    At (join t_bar (map mtext ts) ++ rest) l -> Fol rest tk rest' -> ok_follow (tkind tk) ->
+    2 * length (join t_bar (map mtext ts)) + 17 <= f ->
+    one_type_loop f acc l = POk (AMulti (acc ++ map membed ts)) (StA rest' tk).
+Proof.
+  induction ts as [|m ts IH]; [congruence|]. intros _ HF f acc l rest tk rest' Hat Hfol (K1 & K2 & K3) Hf.
+  inversion HF as [|? ? Hm HF']; subst.
+  destruct f as [|f]; [lia|]. cbn [one_type_loop].
+  destruct ts as [|m2 ts].
+  - cbn [map join] in *.
+    destruct (Hm f l rest tk rest' Hat Hfol K1 K3 ltac:(lia)) as (l' & -> & Hl'). cbn [pbind].
+    rewrite (lak_of _ _ _ Hl'). cbn [pbind]. rewrite (kind_neq_false _ _ K2). reflexivity.
+  - cbn [map] in *. rewrite join_cons2 in *. rewrite !app_length in Hf. cbn [length t_bar] in Hf.
+    rewrite <- !app_assoc in Hat.
+    destruct (Hm f l _ _ _ Hat (fol_bar _) ltac:(discriminate) ltac:(discriminate) ltac:(lia)) as (l' & -> & Hl').
+    cbn [pbind]. rewrite (lak_of _ _ _ Hl'). cbn [pbind tkind]. kcomp.
+    rewrite nok_StA by reflexivity. cbn [pbind].
+    rewrite (IH ltac:(discriminate) HF' f (acc ++ [membed m]) _ rest tk rest' (At_sp _) Hfol (conj K1 (conj K2 K3)))
+      by lia.
+    rewrite <- app_assoc. reflexivity.
+Qed.
+
+Lemma claimC_union ts : 2 <= length ts -> Forall ClaimM ts -> ClaimC (DUnion ts).
+Proof.
+  intros Hlen HF f l rest tk rest' Hat Hfol [K3 _] K1 K2 Hf.
+  destruct f as [|f]; [lia|]. cbn [parse_one_type].
+  destruct (lap_At _ _ Hat) as (l1 & -> & Hat1). cbn [pbind].
+  cbn [show_bare] in *. change (map (fun m : dtype => paren (member_paren m) (shw m)) ts) with (map mtext ts) in *.
+  rewrite (union_loop ts ltac:(destruct ts; [cbn in Hlen; lia|discriminate]) HF f [] l1 rest tk rest' Hat1 Hfol
+             (conj K1 (conj K2 K3))) by lia.
+  reflexivity.
+Qed.
+
+(* ------------------------------------------------------------------ tables *)
+Lemma fol_comma more : Fol (t_comma ++ more) (mkTok KComma [44%N]) (32%N :: more).
+Proof. split; reflexivity. Qed.
+Lemma fol_gt more : Fol (62%N :: more) (mkTok KGt [62%N]) more.
+Proof. split; reflexivity. Qed.
+Lemma fol_rparen more : Fol (41%N :: more) (mkTok KRparen [41%N]) more.
+Proof. split; reflexivity. Qed.
+
+Lemma ok_follow_comma : ok_follow KComma. Proof. repeat split; discriminate. Qed.
+Lemma ok_follow_gt : ok_follow KGt. Proof. repeat split; discriminate. Qed.
+Lemma ok_follow_rparen : ok_follow KRparen. Proof. repeat split; discriminate. Qed.
+
+Lemma claimA_table k v : ClaimC k -> ClaimC v -> ClaimA (DTable k v).
+Proof.
+  intros HCk HCv f l rest tk rest' _ _ Hat [Hlex Hstop] _ Hf.
+  cbn [show_bare] in Hat, Hf. fold (show_sub true k) in *. fold (show_sub true v) in *.
+  rewrite !app_length in Hf. cbn [length t_table_lt t_comma] in Hf.
+  rewrite <- !app_assoc in Hat.
+  assert (Hk : lex_token (t_table_lt ++ show_sub true k ++ t_comma ++ show_sub true v ++ [62%N] ++ rest)
+               = Ok (mkTok KTable t_table, 60%N :: show_sub true k ++ t_comma ++ show_sub true v ++ [62%N] ++ rest)).
+  { apply (lex_kw_table (60%N :: _)). reflexivity. }
+  pose proof (At_la _ _ _ _ Hat Hk) as Hl.
+  exists (St rest). split; [|apply la_St; exact Hlex].
+  unfold primary. rewrite (lak_of _ _ _ Hl). cbn [pbind tkind]. kcomp.
+  destruct f as [|f]; [lia|]. cbn [parse_table_type].
+  rewrite nok_StA by reflexivity. cbn [pbind].
+  rewrite (lak_St _ _ _ (lex_lt _)). cbn [pbind tkind]. kcomp. cbn [negb].
+  rewrite nok_StA by reflexivity. cbn [pbind].
+  rewrite (sub_one k HCk f _ _ _ _ (At_St _) (fol_comma _) ok_follow_comma) by lia. cbn [pbind].
+  rewrite nok_StA by reflexivity. cbn [pbind].
+  rewrite (sub_one v HCv f _ ([62%N] ++ rest) _ _ (At_sp _) (fol_gt _) ok_follow_gt) by lia. cbn [pbind].
+  rewrite nok_StA by reflexivity. reflexivity.
+Qed.
+
+(* ------------------------------------------------------------------ fun types *)
+Definition ptext (p : bytes * bool * option dtype) : bytes :=
+  match p with
+  | (n, o, ot) =>
+    n ++ (if o then [63%N] else []) ++
+    match ot with Some t => t_colon ++ paren (sub_paren t) (shw t) | None => [] end
+  end.
+Definition pembed (p : bytes * bool * option dtype) : bytes * bool * atype :=
+  match p with
+  | (n, o, ot) => (n, o, match ot with Some t => wrap_sub t (embed_bare t) | None => ANormal [97; 110; 121]%N false end)
+  end.
+Definition PClaim (p : bytes * bool * option dtype) : Prop :=
+  match p with (n, _, ot) => param_name_ok n = true /\ match ot with Some t => ClaimC t | None => True end end.
+
+Lemma npn_word n X l :
+  param_name_ok n = true -> stop X = true -> At (n ++ X) l -> next_param_name l = POk n (St X).
+Proof.
+  intros Hn HX Hat. unfold param_name_ok in Hn. apply orb_true_iff in Hn as [Hn|Hn].
+  - destruct (ident_shape_inv _ Hn) as (b & r & -> & Hb & Hr).
+    pose proof (At_la _ _ _ _ Hat (lex_word b r X Hb Hr HX)) as Hl.
+    unfold next_param_name. rewrite (ntp_of _ _ _ Hl). cbn [pbind tkind tstr].
+    destruct (kw_lookup (b :: r)) as [k|] eqn:Ek.
+    + destruct (kind_eqb k KIdent || kind_eqb k KVararg); [reflexivity|].
+      unfold keyword_name. cbn [tstr tkind]. rewrite Ek, kind_eqb_refl. reflexivity.
+    + reflexivity.
+  - apply beq_bytes_eq in Hn. subst n.
+    pose proof (At_la _ _ _ _ Hat (lex_dots X)) as Hl.
+    unfold next_param_name. rewrite (ntp_of _ _ _ Hl). reflexivity.
+Qed.
+
+Lemma param_body n o ot Z tz Z' f acc l :
+  PClaim (n, o, ot) ->
+  At (ptext (n, o, ot) ++ Z) l -> Fol Z tz Z' -> (tkind tz = KComma \/ tkind tz = KRparen) ->
+  2 * length (ptext (n, o, ot)) + 14 <= f ->
+  fun_params_loop (S f) acc l =
+  (if kind_eqb (tkind tz) KComma
+   then let* (_, l) := next_token_p (StA Z' tz) in fun_params_loop f (acc ++ [pembed (n, o, ot)]) l
+   else POk (acc ++ [pembed (n, o, ot)]) (StA Z' tz)).
+Proof.
+  intros [Hn Hot] Hat [HlexZ HstopZ] Htz Hf.
+  assert (Kcolon : kind_eqb (tkind tz) KColon = false) by (destruct Htz as [-> | ->]; reflexivity).
+  assert (Kopt : kind_eqb (tkind tz) KOption = false) by (destruct Htz as [-> | ->]; reflexivity).
+  assert (Kfol : ok_follow (tkind tz)) by (destruct Htz as [-> | ->]; repeat split; discriminate).
+  cbn [ptext pembed] in *. rewrite <- !app_assoc in Hat.
+  cbn [fun_params_loop].
+  pose proof (fun HX => npn_word n _ l Hn HX Hat) as Hnpn.
+  rewrite Hnpn by (destruct o; [reflexivity|]; destruct ot; [reflexivity|]; exact HstopZ).
+  clear Hnpn. cbn [pbind].
+  destruct o; cbn [app].
+  - rewrite (lak_St _ _ _ (lex_option _)). cbn [pbind tkind]. kcomp.
+    rewrite ntp_StA. cbn [pbind].
+    destruct ot as [t|].
+    + rewrite <- !app_assoc. unfold t_colon at 1. cbn [app].
+      rewrite (lak_St _ _ _ (lex_colon _)). cbn [pbind tkind snd fst]. kcomp.
+      rewrite nok_StA by reflexivity. cbn [pbind].
+      rewrite !app_length in Hf. cbn [length t_colon] in Hf. fold (show_sub true t) in *.
+      rewrite (sub_one t Hot f _ Z tz Z' (At_sp _) (conj HlexZ HstopZ) Kfol) by lia. cbn [pbind].
+      rewrite lak_StA. reflexivity.
+    + cbn [app]. rewrite (lak_St _ _ _ HlexZ). cbn [pbind snd fst]. rewrite Kcolon. cbn [pbind].
+      rewrite lak_StA. reflexivity.
+  - destruct ot as [t|].
+    + rewrite <- !app_assoc. unfold t_colon at 1. cbn [app].
+      rewrite (lak_St _ _ _ (lex_colon _)). cbn [pbind tkind snd fst]. kcomp.
+      cbn [pbind snd fst]. kcomp.
+      rewrite nok_StA by reflexivity. cbn [pbind].
+      rewrite !app_length in Hf. cbn [length t_colon] in Hf. fold (show_sub true t) in *.
+      rewrite (sub_one t Hot f _ Z tz Z' (At_sp _) (conj HlexZ HstopZ) Kfol) by lia. cbn [pbind].
+      rewrite lak_StA. reflexivity.
+    + cbn [app]. rewrite (lak_St _ _ _ HlexZ). cbn [pbind]. rewrite Kopt. cbn [pbind snd fst]. rewrite Kcolon.
+      cbn [pbind]. rewrite lak_StA. reflexivity.
+Qed.
+
+Lemma params_loop ps : ps <> [] -> Forall PClaim ps ->
+  forall f acc l more,
+    At (join t_comma (map ptext ps) ++ 41%N :: more) l ->
+    2 * length (join t_comma (map ptext ps)) + 15 <= f ->
+    fun_params_loop f acc l = POk (acc ++ map pembed ps) (StA more (mkTok KRparen [41%N])).
+Proof.
+  induction ps as [|p ps IH]; [congruence|]. intros _ HF f acc l more Hat Hf.
+  inversion HF as [|? ? Hp HF']; subst. destruct p as [[n o] ot].
+  destruct f as [|f]; [lia|].
+  destruct ps as [|p2 ps].
+  - cbn [map join] in *.
+    rewrite (param_body n o ot (41%N :: more) _ more f acc l Hp Hat (fol_rparen more) (or_intror eq_refl)) by lia.
+    reflexivity.
+  - cbn [map] in *. rewrite join_cons2 in *. rewrite !app_length in Hf. cbn [length t_comma] in Hf.
+    rewrite <- !app_assoc in Hat.
+    rewrite (param_body n o ot _ _ _ f acc l Hp Hat (fol_comma _) (or_introl eq_refl)) by lia.
+    cbn [tkind]. kcomp. rewrite ntp_StA. cbn [pbind].
+    rewrite (IH ltac:(discriminate) HF' f _ _ more (At_sp _)) by lia.
+    rewrite <- app_assoc. reflexivity.
+Qed.
+
+Lemma rets_loop rs : rs <> [] -> Forall ClaimC rs ->
+  forall f acc l rest tk rest',
+    At (join t_comma (map (show_sub true) rs) ++ rest) l -> Fol rest tk rest' ->
+    ok_follow (tkind tk) -> tkind tk <> KComma ->
+    2 * length (join t_comma (map (show_sub true) rs)) + 19 <= f ->
+    fun_rets_loop f acc l = POk (acc ++ map embed_sub rs) (StA rest' tk).
+Proof.
+  induction rs as [|r rs IH]; [congruence|]. intros _ HF f acc l rest tk rest' Hat Hfol Hok Hk Hf.
+  inversion HF as [|? ? Hr HF']; subst.
+  destruct f as [|f]; [lia|]. cbn [fun_rets_loop].
+  destruct rs as [|r2 rs].
+  - cbn [map join] in *.
+    rewrite (sub_one r Hr f l rest tk rest' Hat Hfol Hok) by lia. cbn [pbind].
+    rewrite lak_StA. cbn [pbind]. rewrite (kind_neq_false _ _ Hk). reflexivity.
+  - cbn [map] in *. rewrite join_cons2 in *. rewrite !app_length in Hf. cbn [length t_comma] in Hf.
+    rewrite <- !app_assoc in Hat.
+    rewrite (sub_one r Hr f l _ _ _ Hat (fol_comma _) ok_follow_comma) by lia. cbn [pbind].
+    rewrite lak_StA. cbn [pbind tkind]. kcomp. rewrite ntp_StA. cbn [pbind].
+    rewrite (IH ltac:(discriminate) HF' f _ _ rest tk rest' (At_sp _) Hfol Hok Hk) by lia.
+    rewrite <- app_assoc. reflexivity.
+Qed.
+
+Lemma kw_lookup_not_rparen s k : kw_lookup s = Some k -> k <> KRparen.
+Proof.
+  intros H. apply assoc_bytes_in in H. unfold keyword_bytes in H.
+  repeat (destruct H as [H|H]; [injection H as _ <-; discriminate|]). destruct H.
+Qed.
+
+(* the first token of a non-empty parameter list is a name, never ")" *)
+Lemma params_head p ps more : PClaim p ->
+  exists t c, lex_token (join t_comma (map ptext (p :: ps)) ++ 41%N :: more) = Ok (t, c) /\ tkind t <> KRparen.
+Proof.
+  destruct p as [[n o] ot]. intros [Hn _].
+  assert (HX : exists X, join t_comma (map ptext ((n, o, ot) :: ps)) ++ 41%N :: more = n ++ X /\ stop X = true).
+  { destruct ps as [|p2 ps]; cbn [map]; [rewrite join_one | rewrite join_cons2]; cbn [ptext];
+      rewrite <- !app_assoc; eexists; (split; [reflexivity|]);
+        (destruct o; [reflexivity|]); (destruct ot; [reflexivity|]); reflexivity. }
+  destruct HX as (X & -> & HX).
+  unfold param_name_ok in Hn. apply orb_true_iff in Hn as [Hn|Hn].
+  - destruct (ident_shape_inv _ Hn) as (b & r & -> & Hb & Hr).
+    rewrite (lex_word b r X Hb Hr HX). eexists. eexists. split; [reflexivity|]. cbn [tkind].
+    destruct (kw_lookup (b :: r)) eqn:E; [eapply kw_lookup_not_rparen; exact E | discriminate].
+  - apply beq_bytes_eq in Hn. subst n. rewrite lex_dots. eexists. eexists. split; [reflexivity|]. discriminate.
+Qed.
+
+(* parserFunType on the bare text of a fun type *)
+Lemma fun_type_rt ps rs : Forall PClaim ps -> Forall ClaimC rs ->
+  forall f l rest tk rest',
+    At (shw (DFun ps rs) ++ rest) l -> Fol rest tk rest' ->
+    tkind tk <> KLt -> tkind tk <> KColon -> tkind tk <> KComma -> tkind tk <> KBor -> tkind tk <> KLbrack ->
+    2 * length (shw (DFun ps rs)) + 12 <= f ->
+    parse_fun_type f l = POk (embed_bare (DFun ps rs)) (StA rest' tk).
+Proof.
+  intros HP HR f l rest tk rest' Hat [Hlex Hstop] K3 Kc Kcm K2 K1 Hf.
+  cbn [show_bare embed_bare] in *.
+  change (map (fun p : bytes * bool * option dtype =>
+                 match p with
+                 | (n, o, ot) => n ++ (if o then [63%N] else []) ++
+                                 match ot with Some t => t_colon ++ paren (sub_paren t) (shw t) | None => [] end
+                 end) ps) with (map ptext ps) in *.
+  change (map (fun r : dtype => paren (sub_paren r) (shw r)) rs) with (map (show_sub true) rs) in *.
+  change (map (fun p : bytes * bool * option dtype =>
+                 match p with
+                 | (n, o, ot) => (n, o, match ot with
+                                        | Some t => wrap_sub t (embed_bare t)
+                                        | None => ANormal [97%N; 110%N; 121%N] false
+                                        end)
+                 end) ps) with (map pembed ps).
+  change (map (fun r : dtype => wrap_sub r (embed_bare r)) rs) with (map embed_sub rs).
+  rewrite !app_length in Hf. cbn [length t_fun] in Hf.
+  rewrite <- !app_assoc in Hat.
+  pose proof (At_la _ _ _ _ Hat (lex_kw_fun _)) as Hl.
+  destruct f as [|f]; [lia|]. cbn [parse_fun_type].
+  rewrite (nok_of _ _ _ Hl KFun eq_refl). cbn [pbind].
+  rewrite (lak_St _ _ _ (lex_lparen _)). cbn [pbind tkind]. kcomp. cbn [pbind].
+  rewrite nok_StA by reflexivity. cbn [pbind].
+  (* parameters *)
+  set (tail := (if is_nil rs then [] else t_colon ++ join t_comma (map (show_sub true) rs)) ++ rest) in *.
+  assert (Hps : (let* (k, l0) := look_ahead_kind (St (join t_comma (map ptext ps) ++ [41%N] ++ tail)) in
+                 let* (ps0, l1) := (if kind_eqb k KRparen then POk [] l0 else fun_params_loop f [] l0) in
+                 let* (_, l2) := next_of_kind KRparen l1 in POk ps0 l2) = POk (map pembed ps) (St tail)).
+  { destruct ps as [|p ps'].
+    - cbn [map join app]. rewrite (lak_St _ _ _ (lex_rparen _)). cbn [pbind tkind]. kcomp. cbn [pbind].
+      rewrite nok_StA by reflexivity. reflexivity.
+    - inversion HP as [|? ? Hp _]; subst.
+      destruct (params_head p ps' tail Hp) as (t & c & Hlex1 & Hne).
+      cbn [app]. rewrite (lak_St _ _ _ Hlex1). cbn [pbind]. rewrite (kind_neq_false _ _ Hne).
+      rewrite (params_loop (p :: ps') ltac:(discriminate) HP f [] (StA c t) tail
+                           (la_At _ _ _ _ (la_StA _ _) Hlex1)) by lia.
+      cbn [pbind app]. rewrite nok_StA by reflexivity. reflexivity. }
+  (* push the parameter part through the remaining binds *)
+  match goal with
+  | |- (let* (k, l0) := look_ahead_kind ?s in
+        let* (ps0, l1) := @?P k l0 in
+        let* (_, l2) := next_of_kind KRparen l1 in @?R ps0 l2) = _ =>
+    transitivity (let* (ps0, l2) := (let* (k, l0) := look_ahead_kind s in
+                                     let* (ps0, l1) := P k l0 in
+                                     let* (_, l2) := next_of_kind KRparen l1 in POk ps0 l2) in R ps0 l2)
+  end.
+  { destruct (look_ahead_kind _) as [k l0| | |]; try reflexivity. cbn [pbind].
+    destruct (if kind_eqb k KRparen then _ else _) as [ps0 l1| | |]; try reflexivity. cbn [pbind].
+    destruct (next_of_kind KRparen l1); reflexivity. }
+  rewrite Hps. cbn [pbind]. subst tail.
+  destruct rs as [|r rs'].
+  - cbn [is_nil map app]. rewrite (lak_St _ _ _ Hlex). cbn [pbind]. rewrite (kind_neq_false _ _ Kc). reflexivity.
+  - cbn [is_nil]. rewrite <- !app_assoc. unfold t_colon at 1. cbn [app].
+    rewrite (lak_St _ _ _ (lex_colon _)). cbn [pbind tkind]. kcomp.
+    rewrite ntp_StA. cbn [pbind].
+    cbn [is_nil] in Hf. rewrite !app_length in Hf. cbn [length t_colon] in Hf.
+    rewrite (rets_loop (r :: rs') ltac:(discriminate) HR f [] _ rest tk rest' (At_sp _) (conj Hlex Hstop)
+                       (conj K1 (conj K2 K3)) Kcm) by lia.
+    reflexivity.
+Qed.
+
+Lemma claimA_fun ps rs : Forall PClaim ps -> Forall ClaimC rs -> ClaimA (DFun ps rs).
+Proof.
+  intros HP HR f l rest tk rest' _ _ Hat Hfol [K3 Hfun] Hf.
+  destruct (Hfun eq_refl) as (Kc & Kcm & K2 & K1).
+  assert (Hlex0 : exists c0, lex_token (shw (DFun ps rs) ++ rest) = Ok (mkTok KFun [102; 117; 110]%N, c0)).
+  { cbn [show_bare]. rewrite <- !app_assoc. rewrite lex_kw_fun. eexists. reflexivity. }
+  destruct Hlex0 as [c0 Hlex0].
+  pose proof (At_la _ _ _ _ Hat Hlex0) as Hl.
+  exists (StA rest' tk). split; [|reflexivity].
+  unfold primary. rewrite (lak_of _ _ _ Hl). cbn [pbind tkind]. kcomp.
+  apply (fun_type_rt ps rs HP HR f _ rest tk rest'); try assumption.
+  eapply la_At; [apply la_StA | exact Hlex0].
+Qed.
+
+(* ------------------------------------------------------------------ all types, by induction on the size *)
+Lemma tsize_pos t : 1 <= tsize t.
+Proof. destruct t; cbn; lia. Qed.
+
+Lemma claims_all : forall n t, tsize t <= n -> doc_type t = true -> ClaimA t /\ ClaimB t /\ ClaimC t.
+Proof.
+  induction n as [|n IH]; intros t Hs Hd; [pose proof (tsize_pos t); lia|].
+  assert (leaf : forall t, is_union t = false -> is_array t = false -> ClaimA t -> ClaimA t /\ ClaimB t /\ ClaimC t).
+  { intros t0 Hu Ha HA. pose proof (claimB_of_A t0 Ha HA) as HB.
+    split; [exact HA|]. split; [exact HB|]. apply claimC_of_B; assumption. }
+  destruct t as [nm|s q|i| |k v|ps rs|ts].
+  - apply leaf; [reflexivity|reflexivity|]. apply claimA_name. exact Hd.
+  - apply leaf; [reflexivity|reflexivity|]. apply claimA_const. exact Hd.
+  - cbn [tsize doc_type] in Hs, Hd. destruct (IH i ltac:(lia) Hd) as (HAi & HBi & HCi).
+    pose proof (claimB_array i HAi HCi) as HB.
+    split; [intros ? ? ? ? ? _ Hcontra; discriminate Hcontra|]. split; [exact HB|].
+    apply claimC_of_B; [reflexivity | exact HB].
+  - apply leaf; [reflexivity|reflexivity|]. apply claimA_table0.
+  - cbn [tsize doc_type] in Hs, Hd. apply andb_true_iff in Hd as [Hdk Hdv].
+    destruct (IH k ltac:(lia) Hdk) as (_ & _ & HCk). destruct (IH v ltac:(lia) Hdv) as (_ & _ & HCv).
+    apply leaf; [reflexivity|reflexivity|]. apply claimA_table; assumption.
+  - cbn [tsize doc_type] in Hs, Hd. apply andb_true_iff in Hd as [Hdp Hdr].
+    apply leaf; [reflexivity|reflexivity|]. apply claimA_fun.
+    + apply Forall_forall. intros [[pn po] pot] Hin.
+      rewrite forallb_forall in Hdp. specialize (Hdp _ Hin). cbn [doc_param] in Hdp.
+      apply andb_true_iff in Hdp as [Hpn Hpt]. split; [exact Hpn|].
+      destruct pot as [pt|]; [|exact I].
+      pose proof (list_sum_in (fun p : bytes * bool * option dtype =>
+                                 match p with (_, _, Some t) => S (tsize t) | _ => 1 end) _ _ Hin) as Hsz.
+      cbn beta iota in Hsz. apply (IH pt ltac:(lia) Hpt).
+    + apply Forall_forall. intros r Hin. rewrite forallb_forall in Hdr.
+      pose proof (list_sum_in tsize _ _ Hin) as Hsz. apply (IH r ltac:(lia) (Hdr _ Hin)).
+  - cbn [tsize doc_type] in Hs, Hd. apply andb_true_iff in Hd as [Hlen Hdt]. apply Nat.leb_le in Hlen.
+    split; [intros ? ? ? ? ? Hcontra; discriminate Hcontra|].
+    split; [intros ? ? ? ? ? Hcontra; discriminate Hcontra|].
+    apply claimC_union; [exact Hlen|].
+    apply Forall_forall. intros m Hin. rewrite forallb_forall in Hdt.
+    pose proof (list_sum_in tsize _ _ Hin) as Hsz.
+    destruct (IH m ltac:(lia) (Hdt _ Hin)) as (_ & HBm & HCm). apply claimM_of; assumption.
+Qed.
+
+Lemma claimC_all t : doc_type t = true -> ClaimC t.
+Proof. intros Hd. apply (claims_all (tsize t) t (le_n _) Hd). Qed.
+
+Lemma fol_nil : Fol [] (mkTok KEOF s_EOF) [].
+Proof. split; reflexivity. Qed.
+
+Lemma cond_prim_eof t : cond_prim t KEOF.
+Proof. split; [discriminate|]. intros _. repeat split; discriminate. Qed.
+
+(* ------------------------------------------------------------------ C16_type_roundtrip *)
+Theorem type_roundtrip : forall t, doc_type t = true ->
+  parse_type (fuel_of (show_type t)) (show_type t) = Ok (inl (embed_one t, [])).
+Proof.
+  intros t Hd. unfold parse_type, show_type.
+  rewrite (claimC_all t Hd (fuel_of (shw t)) (St (shw t)) [] (mkTok KEOF s_EOF) []).
+  - reflexivity.
+  - rewrite app_nil_r. apply At_St.
+  - apply fol_nil.
+  - apply cond_prim_eof.
+  - discriminate.
+  - discriminate.
+  - unfold fuel_of. lia.
 Qed.
